@@ -174,7 +174,12 @@ func (el EntryList) MarshalPacked() ([]byte, error) {
 		}
 	}
 
-	return buf.Bytes(), nil
+	// The buffer goes back to the pool: hand the caller its own copy, or the
+	// next MarshalPacked (on any goroutine) would overwrite what was returned.
+	bits := make([]byte, buf.Len())
+	copy(bits, buf.Bytes())
+
+	return bits, nil
 }
 
 // Equal compares two EntryList objects and returns true if they have
